@@ -25,10 +25,30 @@ def run(tier):
     seeds = [run_.seed] if tier == "quick" else [run_.seed, run_.seed + 1000]
     # the same comparison on a build with -DNDEBUG (assertions compiled out where the tree allows it)
     runs = [(exe, s) for s in seeds]
-    for k, fl in enumerate(("ndebug", "os", "v2")):
+    flavours = ["ndebug", "os", "v2"]
+    with open("/proc/cpuinfo") as f:
+        cpu = f.read()
+    v3_ok = all((" " + x + " ") in cpu or (" " + x + "\n") in cpu for x in ("avx2", "bmi1", "bmi2", "fma", "movbe"))
+    if v3_ok:
+        flavours.append("v3")
+    for k, fl in enumerate(flavours):
         runs.append((rt.TREE.program(fl, "vprim.c", name="vprim-" + fl, wrap=False, libs="-lgcrypt"), run_.seed + 7 + k))
-    procs = [subprocess.Popen([e, "cmp", tier, str(s)], stdout=subprocess.PIPE, stderr=subprocess.PIPE,
-                              text=True, env=env) for e, s in runs]
+    cmds = [[e, "cmp", tier, str(s)] for e, s in runs]
+    # messages of 2^29 bytes and more (bit count beyond 32 bits) in one update call: -O2 build, one process per
+    # algorithm; the thorough tier adds 2^32 bytes (byte count beyond 32 bits)
+    opt_exe = rt.TREE.program("opt", "vprim.c", name="vprim-opt", wrap=False, libs="-lgcrypt")
+    for a in range(7):
+        for lg in ((29,) if tier == "quick" else (29, 31, 32)):
+            cmds.append([opt_exe, "huge", str(run_.seed + a), str(lg), str(a)])
+            runs.append((opt_exe, run_.seed + a))
+    procs = []
+    import time
+    for c in cmds:
+        procs.append(subprocess.Popen(c, stdout=subprocess.PIPE, stderr=subprocess.PIPE, text=True, env=env))
+        if c[1] == "huge" and int(c[3]) >= 31:
+            while sum(1 for p in procs if p.poll() is None) >= 8:      # a few GiB each: not all at once
+                time.sleep(0.5)
+    runs = [(" ".join(c[:1]), " ".join(c[1:])) for c in cmds]
     acc = common.Acc()
     stats = {}
     for (exe, s), p in zip(runs, procs):
@@ -44,14 +64,14 @@ def run(tier):
                 m = re.search(r"#\d+ 0x[0-9a-f]+ in (\S+) /repo/lib/(\S+)", err)
                 acc.violation("%s/sanitizer/%s" % (PID, m.group(1) if m else "?"),
                               "sanitizer report or crash inside a primitive: " + err[:1500].replace("\n", " | "),
-                              {"cmd": "%s cmp %s %d" % (exe, tier, s)})
+                              {"cmd": "%s %s" % (exe, s)})
             else:
                 run_.harness_error("vprim exit %s: %s" % (p.returncode, err[-400:]))
             continue
         for ln in out.splitlines():
             if ln.startswith("VIOL "):
                 _, what, detail = ln.split(" ", 2)
-                acc.violation("%s/%s" % (PID, what), detail, {"cmd": "%s cmp %s %d" % (exe, tier, s)})
+                acc.violation("%s/%s" % (PID, what), detail, {"cmd": "%s %s" % (exe, s)})
             elif ln.startswith("CLS "):
                 acc.cls(tuple(ln.split()[1:]))
             elif ln.startswith("STAT "):
@@ -75,7 +95,9 @@ def run(tier):
         "max_length_with_all_two_way_splits": L,
         "samples": [{"algorithm": "sha512", "len": 129, "cut": 128, "offset": 1},
                     {"algorithm": "pbkdf2-sha256", "pwlen": 65, "saltlen": 52, "c": 1, "dkLen": 64}],
-        "flavour": "gcc address+undefined, and -O2 -DNDEBUG, -Os, -O2 -march=x86-64-v2 builds; oracle libgcrypt in process",
+        "messages_of_2^29_bytes_and_more": stats.get("huge_messages", 0),
+        "x86-64-v3_build_run": v3_ok,
+        "flavour": "gcc address+undefined, and -O2 -DNDEBUG, -Os, -O2 -march=x86-64-v2 / -v3 builds; oracle libgcrypt in process",
     }
     return run_.finish(cov, assumptions=[
         "libgcrypt (with a home-made RFC 2104 HMAC and RFC 8018 PBKDF2 built on its digests, cross-checked against "
